@@ -596,6 +596,18 @@ func judge(j Judge, res []RunResult, runErr error) (confirmed bool, observed any
 			return true, map[string]any{"panic": *r.Panic}
 		}
 		return !reflect.DeepEqual(canon(r.Ret), canon(j.ExpectRet)) || (j.Note == "pure" && r.Note != ""), map[string]any{"ret": r.Ret, "note": r.Note}
+	case "kept_changed":
+		// scripts of the form (newbuf, prim keep, scribble, dumpkept)*: a kept result that reads differently
+		// after the source buffer was scribbled over shares memory with it
+		for i := 0; i+3 < len(res); i += 4 {
+			if res[i+1].Panic != nil || res[i+1].Err != nil {
+				continue
+			}
+			if !reflect.DeepEqual(canon(res[i+1].Ret), canon(res[i+3].Ret)) {
+				return true, map[string]any{"script_block": i / 4, "note": "the returned value changed when the source buffer was overwritten"}
+			}
+		}
+		return false, nil
 	case "hang":
 		// the probe step reports that a public registration function did not return: a lock was leaked
 		for i := range res {
